@@ -409,6 +409,9 @@ func (w *World) runClient(ci int) {
 	var shared chan *rpc.Call
 	var sharedCalls []*CallRec
 	for oi := range cp.Ops {
+		if w.Closing {
+			break
+		}
 		op := &cp.Ops[oi]
 		switch op.Kind {
 		case "call":
